@@ -255,6 +255,52 @@ class Life:
         ev["layout_api"] = lay
         ev["digest"] = obs.sha(obs.canon(lay))
 
+    def op_API(self, op, ev):
+        """Direct calls of public ODE / schemes / sympytools API on a loaded model: both a
+        history perturbation (whatever they cache on the object is 'a previous call') and
+        an observation of their own result."""
+        import sympy
+        import gotranx.schemes as S
+        from gotranx import sympytools
+
+        hd = self.handles[op["h"]]
+        ode = hd["ode"]
+        what = op["what"]
+        ev["key"] = "API|%s|%s" % (hd["mkey"], what)
+        ev["judged"] = hd["judged"]
+        dt = sympy.Symbol("dt")
+        if what == "sorted_assignments_ru":
+            res = [a.name for a in ode.sorted_assignments(remove_unused=True)]
+        elif what == "sorted_assignments_all":
+            res = [a.name for a in ode.sorted_assignments(assignments_only=False)]
+        elif what == "sorted_state_derivatives":
+            res = [a.name for a in ode.sorted_state_derivatives()]
+        elif what == "scheme_direct_ru":
+            res = S.explicit_euler(ode, dt, remove_unused=True)
+        elif what == "scheme_direct":
+            res = S.explicit_euler(ode, dt)
+        elif what == "scheme_direct_grl_ru":
+            res = S.generalized_rush_larsen(ode, dt, remove_unused=True)
+        elif what == "scheme_direct_hrl":
+            res = S.hybrid_rush_larsen(ode, dt, stiff_states=sorted(s.name for s in ode.states)[:2])
+        elif what == "dependents":
+            d = ode.dependents()
+            res = sorted((k, sorted(v)) for k, v in d.items())
+        elif what == "missing_variables":
+            res = list(ode.missing_variables.items())
+        elif what == "states_params":
+            res = [[s.name for s in ode.states], [p.name for p in ode.parameters], [i.name for i in ode.intermediates],
+                   [d.name for d in ode.state_derivatives]]
+        elif what == "rhs_matrix":
+            res = str(sympytools.rhs_matrix(ode))
+        elif what == "states_matrix":
+            res = str(sympytools.states_matrix(ode))
+        elif what == "repr_eq":
+            res = [repr(ode), ode == ode]
+        else:
+            raise ValueError(what)
+        ev["digest"] = obs.sha(obs.canon(res))
+
     def op_HOLD(self, op, ev):
         from gotranx.schemes import get_scheme
 
@@ -404,7 +450,7 @@ class Life:
         ev["crossed_restart"] = True
 
     # --------------------------------------------------------------------- loop
-    OBSERVING = {"GEN", "PIECE", "LAYOUT", "USE_HELD", "USE_PUBLIC", "SAVE_ARRAY", "NAME_ARRAY", "CLI_GEN"}
+    OBSERVING = {"GEN", "PIECE", "LAYOUT", "USE_HELD", "USE_PUBLIC", "SAVE_ARRAY", "NAME_ARRAY", "CLI_GEN", "API"}
 
     def run(self) -> dict:
         events = []
